@@ -1,0 +1,189 @@
+//go:build verif
+
+// Verification hooks for property C14 (damaged or hostile input yields errors,
+// not crashes). Thin exported wrappers around the unexported post-decode
+// functions so that the correspondence harness can drive them with arbitrary
+// decoded values. Compiled only with `-tags verif`; adds code, changes none.
+
+package excelize
+
+import (
+	"bytes"
+	"encoding/hex"
+	"fmt"
+	"io"
+	"strconv"
+	"strings"
+)
+
+// VerifC14WorkSheetReader runs workSheetReader (decode + checkSheet +
+// checkRow) for a sheet and returns its error.
+func VerifC14WorkSheetReader(f *File, sheet string) error {
+	_, err := f.workSheetReader(sheet)
+	return err
+}
+
+// verifC14Spec renders decoded rows as "R,ref:hv,ref:hv;R,..." (ref hex, "-" = empty).
+func verifC14Spec(rows []xlsxRow) string {
+	var b strings.Builder
+	for i := range rows {
+		if i > 0 {
+			b.WriteByte(';')
+		}
+		b.WriteString(strconv.Itoa(rows[i].R))
+		for j := range rows[i].C {
+			c := &rows[i].C[j]
+			hv := 0
+			if c.hasValue() {
+				hv = 1
+			}
+			fmt.Fprintf(&b, ",%s:%d", verifHex(c.R), hv)
+		}
+	}
+	if len(rows) == 0 {
+		return "-"
+	}
+	return b.String()
+}
+
+// VerifC14DecodeSheetSpec decodes the worksheet part of a sheet exactly as
+// workSheetReader does (without caching it, without checkSheet/checkRow) and
+// returns the decoded <row>/<c> skeleton. ok=false when the decoder reports an
+// error (workSheetReader then returns that error) or the sheet is unknown.
+func VerifC14DecodeSheetSpec(f *File, sheet string) (spec string, ok bool) {
+	name, found := f.getSheetXMLPath(sheet)
+	if !found {
+		return "", false
+	}
+	ws := new(xlsxWorksheet)
+	if err := f.xmlNewDecoder(bytes.NewReader(namespaceStrictToTransitional(f.readBytes(name)))).
+		Decode(ws); err != nil && err != io.EOF {
+		return "", false
+	}
+	return verifC14Spec(ws.SheetData.Row), true
+}
+
+// VerifC14CheckSheet builds a worksheet from a spec (see verifC14Spec), runs
+// checkSheet then checkRow as workSheetReader does, and dumps the resulting
+// grid: every cell carries its ordinal in the spec so placement is visible.
+// Panics propagate to the caller.
+func VerifC14CheckSheet(spec string) string {
+	ws := new(xlsxWorksheet)
+	id := 0
+	if spec != "-" {
+		for _, rs := range strings.Split(spec, ";") {
+			parts := strings.Split(rs, ",")
+			r, _ := strconv.Atoi(parts[0])
+			row := xlsxRow{R: r}
+			for _, cs := range parts[1:] {
+				kv := strings.Split(cs, ":")
+				c := xlsxC{f: strconv.Itoa(id)}
+				id++
+				if kv[0] != "-" {
+					b, _ := hex.DecodeString(kv[0])
+					c.R = string(b)
+				}
+				if len(kv) > 1 && kv[1] == "1" {
+					c.V = "x"
+				}
+				row.C = append(row.C, c)
+			}
+			ws.SheetData.Row = append(ws.SheetData.Row, row)
+		}
+	}
+	ws.checkSheet()
+	if err := ws.checkRow(); err != nil {
+		return "ERR"
+	}
+	var b strings.Builder
+	fmt.Fprintf(&b, "ok %d", len(ws.SheetData.Row))
+	for i := range ws.SheetData.Row {
+		row := &ws.SheetData.Row[i]
+		if len(row.C) == 0 && row.R == 0 {
+			continue
+		}
+		fmt.Fprintf(&b, " |%d:%d", i, row.R)
+		for j := range row.C {
+			c := &row.C[j]
+			cid := c.f
+			if cid == "" {
+				cid = "_"
+			}
+			fmt.Fprintf(&b, " %s/%s", verifHex(c.R), cid)
+		}
+	}
+	return b.String()
+}
+
+// VerifC14GetValueFrom evaluates (*xlsxC).getValueFrom on a cell with type t,
+// value v and style s against a workbook holding nSI shared strings
+// ("s0", "s1", ...) and nXf default cell formats. Panics propagate.
+func VerifC14GetValueFrom(t, v string, s, nSI, nXf int, raw bool) (string, error) {
+	f := NewFile()
+	defer f.Close()
+	sst := &xlsxSST{}
+	for i := 0; i < nSI; i++ {
+		sst.SI = append(sst.SI, xlsxSI{T: &xlsxT{Val: "s" + strconv.Itoa(i)}})
+	}
+	ss, err := f.stylesReader()
+	if err != nil {
+		return "", err
+	}
+	if nXf < 0 {
+		ss.CellXfs = nil
+	} else {
+		ss.CellXfs = &xlsxCellXfs{}
+		for i := 0; i < nXf; i++ {
+			ss.CellXfs.Xf = append(ss.CellXfs.Xf, xlsxXf{})
+		}
+		ss.CellXfs.Count = nXf
+	}
+	c := &xlsxC{T: t, V: v, S: s}
+	return c.getValueFrom(f, sst, raw)
+}
+
+// VerifC14StandardDecrypt runs the dispatch of Decrypt after extractPart on
+// the two streams: encryptionMechanism, then standardDecrypt for "standard".
+// Returns the mechanism reached and, for standard, the decrypted length.
+func VerifC14StandardDecrypt(info, pkg []byte, password string) (string, int, error) {
+	mechanism, err := encryptionMechanism(info)
+	if err != nil || mechanism != "standard" {
+		return mechanism, 0, err
+	}
+	out, err := standardDecrypt(info, pkg, &Options{Password: password})
+	return mechanism, len(out), err
+}
+
+// VerifC14BuildCFB stores the two streams in a compound file the way Encrypt does.
+func VerifC14BuildCFB(info, pkg []byte) []byte {
+	compoundFile := &cfb{
+		paths:   []string{"Root Entry/"},
+		sectors: []sector{{name: "Root Entry", typeID: 5}},
+	}
+	compoundFile.put("EncryptionInfo", info)
+	compoundFile.put("EncryptedPackage", pkg)
+	return compoundFile.write()
+}
+
+// VerifC14EncryptStreams returns the EncryptionInfo and EncryptedPackage
+// streams Encrypt would store for raw (standard encryption).
+func VerifC14EncryptStreams(raw []byte, password string) ([]byte, []byte, error) {
+	encryptor := encryption{
+		EncryptedVerifierHashInput: make([]byte, 16),
+		EncryptedVerifierHashValue: make([]byte, 32),
+		SaltValue:                  make([]byte, 16),
+		BlockSize:                  16,
+		KeyBits:                    128,
+		SaltSize:                   16,
+	}
+	info, err := encryptor.standardKeyEncryption(password)
+	if err != nil {
+		return nil, nil, err
+	}
+	pkg := make([]byte, 8)
+	for i, n := 0, uint64(len(raw)); i < 8; i++ {
+		pkg[i] = byte(n >> (8 * uint(i)))
+	}
+	pkg = append(pkg, encryptor.encrypt(raw)...)
+	return info, pkg, nil
+}
